@@ -113,6 +113,32 @@ class _Sink(object):
 
 
 
+LOW_MEMORY_HEADROOM = 512 * 2**20
+
+
+def _vm_size():
+    with open('/proc/self/statm') as f:
+        return int(f.read().split()[0]) * os.sysconf('SC_PAGE_SIZE')
+
+
+@contextlib.contextmanager
+def low_memory(headroom=LOW_MEMORY_HEADROOM):
+    """The simulated machine has little memory left: while active the process may grow by `headroom` bytes of address space
+    and no more (RLIMIT_AS), so an allocation sized by what a file *states* rather than by what it holds fails with
+    MemoryError the way it does under a job scheduler's limit, in a small container or without overcommit.  The worlds
+    it is applied to hold less than 1 MiB of content; 512 MiB is ample for reading them."""
+    import resource
+    soft, hard = resource.getrlimit(resource.RLIMIT_AS)
+    limit = _vm_size() + headroom
+    if hard != resource.RLIM_INFINITY:
+        limit = min(limit, hard)
+    resource.setrlimit(resource.RLIMIT_AS, (limit, hard))
+    try:
+        yield
+    finally:
+        resource.setrlimit(resource.RLIMIT_AS, (soft, hard))
+
+
 @contextlib.contextmanager
 def knobs(dedup_chunk=None, debug_log=False):
     """Tuning constants randomised per world (swarm knobs)."""
